@@ -76,6 +76,11 @@ pub struct Opts {
     pub heartbeat: u16,
 }
 
+/// The same token in lower case (0) or with the case of every letter flipped (1).
+fn respell(t: &str, how: u8) -> String {
+    t.chars().map(|c| if how == 0 { c.to_ascii_lowercase() } else if c.is_ascii_uppercase() { c.to_ascii_lowercase() } else { c.to_ascii_uppercase() }).collect()
+}
+
 fn hb_frame() -> Vec<u8> {
     wire::enc_raw(wire::T_HEARTBEAT, 0, &[])
 }
@@ -119,9 +124,12 @@ pub fn gen_script(r: &mut Rng, o: &Opts, props: &FieldTable) -> Script {
     match deviate_at {
         0 => match r.below(12) {
             0 => set(&mut s, 0, vec![Srv::Send(start_frame("AMQPLAIN FOO", &o.locale, props), "Start(no mechanism)")], "UnsupportedAuthMechanism", "mechanism not offered"),
-            1 => set(&mut s, 0, vec![Srv::Send(start_frame(&format!("{}X X{} {}-2", mech, mech, mech), &o.locale, props), "Start(mechanism substrings)")], "UnsupportedAuthMechanism", "mechanism only as substring"),
+            1 if r.bool() => set(&mut s, 0, vec![Srv::Send(start_frame(&format!("{}X X{} {}-2", mech, mech, mech), &o.locale, props), "Start(mechanism substrings)")], "UnsupportedAuthMechanism", "mechanism only as substring"),
+            // (names are compared as they are spelt: RFC 4422 mechanism names are upper case)
+            1 => set(&mut s, 0, vec![Srv::Send(start_frame(&format!("{} AMQPLAIN {}", respell(mech, 0), respell(mech, 1)), &o.locale, props), "Start(mechanism in another spelling)")], "UnsupportedAuthMechanism", "mechanism only in another spelling"),
             2 => set(&mut s, 0, vec![Srv::Send(start_frame(&good_mechs, "xx_YY zz", props), "Start(no locale)")], "UnsupportedLocale", "locale not offered"),
-            3 => set(&mut s, 0, vec![Srv::Send(start_frame(&good_mechs, &format!("{}x x{}", o.locale, o.locale), props), "Start(locale substrings)")], "UnsupportedLocale", "locale only as substring"),
+            3 if r.bool() || respell(&o.locale, 0) == o.locale || respell(&o.locale, 1) == o.locale => set(&mut s, 0, vec![Srv::Send(start_frame(&good_mechs, &format!("{}x x{}", o.locale, o.locale), props), "Start(locale substrings)")], "UnsupportedLocale", "locale only as substring"),
+            3 => set(&mut s, 0, vec![Srv::Send(start_frame(&good_mechs, &format!("{} {}", respell(&o.locale, 0), respell(&o.locale, 1)), props), "Start(locale in another spelling)")], "UnsupportedLocale", "locale only in another spelling"),
             4 => set(&mut s, 0, vec![good_tune.clone()], "FrameUnexpected", "Tune instead of Start"),
             5 => set(&mut s, 0, vec![good_open_ok.clone()], "FrameUnexpected", "OpenOk instead of Start"),
             6 => set(&mut s, 0, vec![Srv::Eof], "UnexpectedSocketClose", "EOF instead of Start"),
@@ -690,6 +698,39 @@ pub fn run(rc: &mut RunCtx) {
             expect: "Ok".into(),
             alt: vec![],
             label: if *t == u64::MAX { "complete handshake, connection_timeout of u64::MAX milliseconds".into() } else { format!("every step after {} ms, connection_timeout {} ms", pause, t) },
+        };
+        res.sig = crate::rng::fnv_str(&s.label);
+        res.sample = Some(json!({"server": s.label, "expect": s.expect}));
+        run_script(&o, &s, &props, Segmenter::Whole, (usize::MAX, 0), &mut res);
+        rc.end(res);
+    }
+    // every frame of the handshake arrives in small pieces with pauses in between, each
+    // pause much shorter than the timeout, each frame taking longer than the timeout: the
+    // broker is never silent for the length of the timeout
+    for (i, (t, gap, piece)) in [(600u64, 150u64, 4usize), (900, 200, 3)].iter().enumerate().take(rc.n(1, 2) as usize) {
+        let id = format!("frames-in-pieces:{}", t);
+        if !rc.mine(&id) {
+            continue;
+        }
+        rc.begin_with_timeout(&id, Duration::from_secs(90));
+        let mut res = CaseResult::new(id);
+        let mut r = Rng::for_case(seed, 16, 886_000 + i as u64);
+        let o = Opts { auth: 0, user: "u".into(), pass: "p".into(), locale: "en_US".into(), vhost: "/".into(), information: None, timeout_ms: Some(*t), channel_max: 0, frame_max: 0, heartbeat: 0 };
+        let props = FieldTable::default();
+        let _ = &mut r;
+        let in_pieces = |bytes: Vec<u8>, what: &'static str| -> Vec<Srv> {
+            let mut v = Vec::new();
+            for c in bytes.chunks(*piece) {
+                v.push(Srv::Send(c.to_vec(), what));
+                v.push(Srv::Pause(*gap));
+            }
+            v
+        };
+        let s = Script {
+            steps: [in_pieces(start_frame("PLAIN", "en_US", &props), "Start (piece)"), in_pieces(tune_frame(0, 131072, 60), "Tune (piece)"), in_pieces(open_ok_frame(), "OpenOk (piece)")],
+            expect: "Ok".into(),
+            alt: vec![],
+            label: format!("every frame in pieces of {} bytes, one every {} ms, connection_timeout {} ms", piece, gap, t),
         };
         res.sig = crate::rng::fnv_str(&s.label);
         res.sample = Some(json!({"server": s.label, "expect": s.expect}));
